@@ -24,7 +24,11 @@ claim("C13",
       "Static lockset discipline and start/stop ordering of server.go on every path and (thorough) every build configuration: started/conns only under Server.lock (write lock for writes), acquire/release pairing incl. unlockOnce, deadline re-arm only under RLock on the started edge, already-started/not-started tests before any effect, started=false before unblocking readers, drain wait before return, wg.Add before go and wg.Done on all paths, close(shutdown) after wg.Wait. These are necessary structural conditions; the behavioural statement over all interleavings (graceful drain, no leak, race freedom) is not decided.",
       STATIC_NOTE, "must-hold lockset dataflow on SSA CFG; edge-dominance guards; must-pass")
 
+claim("C14",
+      "Static: complete path enumeration of the loop-free per-message function (handler at most once, only after accept and decode; otherwise refused, ignored or reported), reject/NOTIMP/ignore reply construction, the default accept policy as a decision list with bit-provenance of QR and opcode, effect summaries of the reply skeletons, and the multiplexer's lock discipline, canonical keys, label-boundary walk, DS continuation, root-last and REFUSED edge. 'Never panics' and longest-suffix optimality over all pattern sets are not decided.",
+      STATIC_NOTE, "path enumeration over SSA CFG; edge-dominance guards; bit provenance; lockset")
+
 _pending = "rules for this property are designed (DESIGN.md §4) but not implemented yet; not claimed until they run"
-for p in ["C02","C03","C05","C06","C07","C09","C10","C11","C12","C14","C15","C16","C18"]:
+for p in ["C02","C03","C05","C06","C07","C09","C10","C11","C12","C15","C16","C18"]:
     na(p, _pending)
 na("C19", "every clause is an equality between index arithmetic on a runtime string and its label sequence; no pairing/ownership/ordering/table structure to decide statically (DESIGN.md §8)")
